@@ -2,6 +2,7 @@ package main
 
 import (
 	"fmt"
+	"os"
 	"os/exec"
 	"strings"
 )
@@ -35,6 +36,19 @@ func selftestMain() int {
 	fmt.Printf("selftest: engine pipe -> %s %s %s %v\n", r1, r2, r3, vals)
 	if r1 != "sat" || r2 != "unsat" || r3 != "sat" || len(vals) != 1 || vals[0] != 255 {
 		bad++
+	}
+	// end to end: load /repo with the harness overlay and decide one small harness
+	if prog, err := loadProgram([]string{"./path", "./zz_verif_model"}); err != nil {
+		fmt.Println("selftest: loading /repo failed:", err)
+		bad++
+	} else {
+		os.Setenv("GOSYM_NOCROSS", "1")
+		res := runHarness(prog, HarnessCfg{Pkg: "path", Func: "H_C20_path_spec", Loop: 12})
+		fmt.Printf("selftest: path.H_C20_path_spec -> paths=%d queries=%d outcomes=%d error=%q\n", res.Paths, res.Queries, len(res.Outcomes), res.Error)
+		if res.Error != "" || len(res.Outcomes) != 0 || res.Paths == 0 {
+			bad++
+		}
+		os.Unsetenv("GOSYM_NOCROSS")
 	}
 	if bad > 0 {
 		fmt.Println("selftest FAILED")
